@@ -21,6 +21,7 @@ pub mod c17;
 pub mod c18;
 pub mod c19;
 pub mod c20;
+pub mod direct;
 pub mod history;
 
 pub struct Ctx {
